@@ -17,7 +17,7 @@ from __future__ import annotations
 
 import json
 
-from harness import docgen, docs, tlc, vocab
+from harness import docgen, docs, project, tlc, vocab
 from harness.core import Check
 from harness.par import pmap
 
@@ -218,6 +218,7 @@ SNIPPETS = [
     ("def", "[ref]: http://example.com/x \"T\""), ("footnote", "[^n]: Note text."), ("html", "<div>inline html</div> text"),
     ("hardbreak", "line one\\\nline two"), ("task", "- [ ] todo\n- [x] done"), ("alert", "> [!NOTE]\n> Body."), ("link", "See [ref] and [t](http://u.v \"ti\")."),
     ("emph", "*em* **strong** `code` ~~del~~"), ("nested", "- a\n  - b\n\n    para in b"), ("digits", "1986\\. A year"),
+    ("listfirst", "- - a\n\n  - b\n\n  para after inner"), ("olistfirst", "1. - x\n\n   - y\n2. z"),
 ]
 
 
@@ -281,6 +282,11 @@ def eval_c(job):
     return r
 
 
+def d44_first_shape(tree) -> bool:
+    from harness.props import c02
+    return c02.d44_first_shape(tree)
+
+
 def run_family_c(chk: Check, tier: str) -> None:
     """every block snippet inside every container, as the first block of the container and after a leading paragraph"""
     opts = OPTS_S if tier == "thorough" else OPTS_S[:1]
@@ -317,6 +323,26 @@ def run_family_c(chk: Check, tier: str) -> None:
         if dm == 0 and di and "D49" in chk.open_findings and "table(" in t["ti_in"] and "table(" not in t["tm_in"]:
             chk.known_finding("D49", m)
             stats["D49"] += 1
+            continue
+        # D44, second face: a loose list that opens an item writes its separator before the marker of the enclosing item; inside
+        # "- > " that line ('  >') opens a quote in front of the list.  Neutralisation: without the prefix-only lines that directly
+        # precede a marker line the output reads like the source (up to tightness)
+        if "D44" in chk.open_findings and d44_first_shape(project.parse_marko(m["src"])):
+            import re as _re
+            ls = m["out"].split("\n")
+            keep = [l for j, l in enumerate(ls) if not (l.strip(" >") == "" and j + 1 < len(ls) and _re.match(r"[ >]*(?:[-*+]|\d+[.)]) ", ls[j + 1]))]
+            loose = lambda f: [x.replace(":tight(", ":loose(") for x in f]  # noqa: E731
+            try:
+                if loose(project.flat(project.parse_marko("\n".join(keep)))) == loose(a):
+                    chk.known_finding("D44", m)
+                    stats["D44"] += 1
+                    continue
+            except BaseException:  # noqa: BLE001
+                pass
+        from harness import corpus as _corpus
+        if "D57" in chk.open_findings and _corpus.d57_trigger(m["src"]) and dm:
+            chk.known_finding("D57", m)
+            stats["D57"] = stats.get("D57", 0) + 1
             continue
         stats["failing"] += 1
         chk.violation("SameDocument(marko)" if dm else "SameDocument(markdown-it)",
